@@ -88,8 +88,8 @@ PROPS["C08"] = {
 }
 PROPS["C04"] = {
     "level_text": "Proof by contract that SelectState::match_operate equals the property's predicate for all sequence numbers, frame ids, hashes, instants and timeouts (Ok iff next sequence, next fragment id, same object hash, within the select timeout; otherwise a non-success status), plus the state it reads: select record frames, per-connection reset drops the select, sequence mod 16, first_error, hash input = exactly the object bytes, frame id +1 per completed fragment (C08).",
-    "level_note": "Not covered: the async bodies handle_select / handle_operate / handle_one_request (recording the select only on all-success, calling match_operate before actuating, answering every object, clearing the select on any other request) - a change confined to those bodies is invisible to this check. xxh64 collision-freedom assumed; clock is a harness stub.",
-    "not_covered": ["outstation::session::{handle_select,handle_operate,handle_controls} (async, iterate control headers through the dispatcher)"],
+    "level_note": "handle_select (select recorded IFF every object succeeded) and handle_operate (actuation IFF match_operate accepts, else a non-success status for every object) and handle_controls are proved with the ControlCollection methods that iterate the control headers behind contract stubs and with asynchronous user callbacks not modelled (MaybeAsync weave). Not covered: per-object status accumulation inside select_with_response / operate_with_response (app-layer dispatcher), process_request_from_idle (a repeated non-SELECT request also refreshes the select's fragment id: found by reading, not decidable here). xxh64 collision-freedom assumed; clock is a harness stub.",
+    "not_covered": ["outstation::control::collection::ControlCollection::{select_with_response,operate_with_response} (dispatcher)", "outstation::session::process_request_from_idle (async; does not finish)"],
     "assumptions": ["tokio::time::Instant::now replaced by a harness clock", "xxh64 collision-freedom"],
 }
 
